@@ -130,6 +130,11 @@ func (r *RoundRobin) nextServer() (*server, error) {
 	gcd := r.weightGcd()
 	// Maximum weight across all enabled servers
 	maxWeight := r.maxWeight()
+	if maxWeight == 0 {
+		// checked up front: the loop below notices it only when the iterator wraps around
+		// and would otherwise hand out zero-weight servers on the calls in between
+		return nil, errors.New("all servers have 0 weight")
+	}
 
 	for {
 		r.index = (r.index + 1) % len(r.servers)
